@@ -80,6 +80,7 @@ def rand_task(rng, names):
     if pick(rng, 0.3): t["required_modules"] = [rng.choice(names)]
     if pick(rng, 0.2): t["build"] = False
     if pick(rng, 0.2): t["export"] = ["X"]
+    if pick(rng, 0.15): t["workdir"] = rng.choice([".", "${relpath}", "${relpath}/."])      # (directories that exist)
     return t
 
 def gen_module(rng, n, names, ctx_choice, penv, pc, pu, focus):
